@@ -67,7 +67,7 @@ func c18MakeLine(n int) c18Line {
 	refnames := []string{"", "A", "A", "B", "B", "C", "C"}
 	if vrtParam("CROSS", 0) == 1 {
 		// reduced per-line variety for the multi-line (cross-line) harness
-		styles = []int{0, 4, 7, 6}
+		styles = []int{0, 4, 7, 6, 9}
 		reftexts = []string{"", "$A", "${B}"}
 		refnames = []string{"", "A", "B"}
 	}
